@@ -149,7 +149,7 @@ _PLM = "fontdrasil/src/piecewise_linear_map.rs"
 _PLMF = "fontdrasil::piecewise_linear_map::PiecewiseLinearMap::"
 UNITS["C08"] = [
     _k("c08_plm_new_sorted_permutation_3", "fontdrasil", _PLM, [_PLMF + "new"], "bounded", "exactly 3 mapping pairs, arbitrary finite values |v| <= 1e9, any order, duplicates allowed",
-       "3 finite pairs", "from sorted ascending; output pairs are a permutation of the input pairs"),
+       "3 finite pairs", "nodes in canonical lexicographic (from, to) order - independent of the order supplied; output pairs are a permutation of the input pairs"),
     _k("c08_plm_map_exact_at_nodes_3", "fontdrasil", _PLM, [_PLMF + "map"], "bounded", "exactly 3 nodes, strictly increasing finite `from`, arbitrary finite `to`",
        "well-formed 3-node map", "map(from[k]) == to[k] for every node k"),
     _k("c08_plm_map_exact_at_nodes_2", "fontdrasil", _PLM, [_PLMF + "map"], "bounded", "exactly 2 nodes", "well-formed 2-node map", "map(from[k]) == to[k]"),
@@ -159,6 +159,8 @@ UNITS["C08"] = [
        "sorted 3-node map", "map at a duplicated `from` returns the FIRST node's `to` (ufo2ft #978)"),
     _k("c08_plm_reverse_inverts_at_nodes_3", "fontdrasil", _PLM, [_PLMF + "reverse", _PLMF + "map"], "bounded", "exactly 3 nodes, strictly increasing from and to",
        "strictly monotone 3-node map", "reverse() is well-formed and reverse().map(to[k]) == from[k]"),
+    _k("c08_plm_reverse_well_formed_3", "fontdrasil", _PLM, [_PLMF + "reverse"], "bounded", "exactly 3 nodes, sorted `from`, ARBITRARY finite `to` (decreasing / flat allowed)",
+       "well-formed 3-node map", "reverse() has 3 nodes, is in canonical (from, to) order, and contains every swapped pair"),
     _k("c08_plm_map_exact_at_nodes_4", "fontdrasil", _PLM, [_PLMF + "map"], "bounded", "exactly 4 nodes, non-decreasing `from` (duplicates allowed)",
        "sorted 4-node map", "map(from[k]) == to[first node with that from]", tiers=("thorough",), timeout_s=1800),
     _k("c08_plm_new_sorted_permutation_4", "fontdrasil", _PLM, [_PLMF + "new"], "bounded", "exactly 4 mapping pairs",
